@@ -332,7 +332,8 @@ func runValue(c *mon.Case) {
 
 func Spec() *mon.Spec {
 	return &mon.Spec{
-		ID: "C04", Level: "exploration",
+		ID:            "C04",
+		SpinViolation: true, Level: "exploration",
 		Rule: "case = one generated value (gen.GenValue: $nil, bools, adversarial strings incl. invalid UTF-8 and metacharacters, numbers in all four representations incl. ±0.0, ±Inf, NaN, subnormals, 2^53/2^63 neighbours, big rationals; lists and maps to depth 5, width 8; 1/8 of the cases also build lists as slices of longer lists). ReprPlain and Repr at indent 0, 1, 3 are each evaluated with `put <text>`; the single result is read back into a model and must be the same value (same Go number type, float bits, NaN≡NaN), eq to the original when it holds no NaN, and print to the same text again. Every map is rebuilt 3 times in shuffled insertion orders with assoc/dissoc detours and must print byte-identically (skipped when two keys tie under the documented total order). Non-trivial = value has a container and a string that needs quotes or a non-int number; distinct by repr text.",
 		Assumptions: []string{
 			"insertion-order independence is not asserted for maps with two keys that the documented total order ties (e.g. (num 1) and (num 1.0), two map-valued keys): the documentation promises no order for them",
